@@ -131,7 +131,11 @@ def polyMustOut (c : PolyCase) (segs : List Seg) (p : Pt) : Bool :=
     let tol := tolOf a c.delta
     if c.delta > 0 then sdGt segs inside p (c.delta + tol)
     else
-      (!inside && sdGt segs false p (c.delta + tol))
+      -- outer bound of a bevel shrink = the input region minus the rectangles swept by its edges.  At a reflex vertex of the
+      -- region (e.g. the tip of a spike of a hole) the gap between the two rectangles reaches the vertex itself and the bevel
+      -- chord passes at |δ|·cos(a/2) from it, so a point outside the input is excluded only beyond the tolerance band
+      -- (`tol`), not beyond `tol - |δ|`
+      (!inside && sdGt segs false p tol)
         || segs.any (fun e => inRect p e.1 e.2 (-c.delta - tol) (inputSign c) tol tol)
   | _ =>
     let (_, hi) := sandwich c
